@@ -119,7 +119,11 @@ class CombineCallsBaseCodemod(SimpleCodemod, NameResolutionMixin):
         new_left = self.combine_calls(node.left, node.right.left)
         new_right = node.right.right
         return cst.BooleanOperation(
-            left=new_left, operator=node.right.operator, right=new_right
+            left=new_left,
+            operator=node.right.operator,
+            right=new_right,
+            lpar=node.lpar,
+            rpar=node.rpar,
         )
 
     def combine_boolop_or_call_fold_left(
@@ -128,5 +132,9 @@ class CombineCallsBaseCodemod(SimpleCodemod, NameResolutionMixin):
         new_left = node.left.left
         new_right = self.combine_calls(node.left.right, node.right)
         return cst.BooleanOperation(
-            left=new_left, operator=node.left.operator, right=new_right
+            left=new_left,
+            operator=node.left.operator,
+            right=new_right,
+            lpar=node.lpar,
+            rpar=node.rpar,
         )
